@@ -75,6 +75,12 @@ def blocks_from_paths(paths, rng, max_two=None):
                 ops.append({"op": "put", "k": "k", "v": tx["w"]["k"]})
             if tx["d"] > 0:
                 ops.append({"op": "xfer", "tok": "ong", "from": tx["payer"], "to": "SINK", "amt": tx["d"] * unit})
+            # native contracts that handle the transaction cache themselves, between the script's effects and its end:
+            # system.evmInvoke (an EVM call from inside the transaction), a read of global_params
+            if (n + si) % 2 == 0:
+                ops.append({"op": "evminvoke"})
+            elif (n + si) % 5 == 1:
+                ops.append({"op": "getparam"})
             end = "ok"
             if tx["end"] == "fault":
                 kind = (pi + si) % 3
@@ -121,9 +127,11 @@ def random_blocks(rng, ngroups, nblocks):
                     elif c < 0.65:
                         frm = payer if rng.random() < 0.8 else rng.choice(ROLES)
                         ops.append({"op": "approve", "tok": rng.choice(["ong", "ont"]), "from": frm, "to": rng.choice(ROLES), "amt": rng.randrange(0, 50)})
-                    elif c < 0.8:
-                        if not any(o["op"] == "xfer" and o["to"] == "SINK" for o in ops):
+                    elif c < 0.78:
+                        if not any(o["op"] == "xfer" and o.get("to") == "SINK" for o in ops):
                             ops.append({"op": "xfer", "tok": "ong", "from": payer, "to": "SINK", "amt": rng.randrange(1, 300) * scale2})
+                    elif c < 0.84:
+                        ops.append({"op": rng.choice(["evminvoke", "evminvoke", "getparam", "regid"])})
                     elif c < 0.9:
                         frm = rng.choice(ROLES)
                         ops.append({"op": "xfer", "tok": "ont", "from": frm, "to": rng.choice(ROLES), "amt": rng.randrange(0, 12)})
